@@ -32,8 +32,8 @@ def run(ck):
     quick = ck.tier == "quick"
     ck.assumptions += ["relative tolerance 1e-6 on quantities mapped back to the original units (conditioning of the "
                        "transformed problem), scales |a| in [1e-3, 1e3]",
-                       "variance floors are left at their (negligible) defaults in the metamorphic pairs; the exact models "
-                       "transform the floors with the features",
+                       "variance floors transform with the features (GmmMStep.AffineEquivariant): the pairs run with the negligible "
+                       "defaults and, for ML training, with a binding user-set floor t -> a^2 t given per feature or per cell",
                        "MAP with frozen means and adapted variances is excluded: C05's formula is not shift-equivariant there"]
     # ---------------- M1
     smp = rng.sample(gm.samples(3), 40 if quick else 400)
@@ -120,6 +120,30 @@ def pairs(ck, em, rng, count):
             fact("GmmML.weights", rel(m2.weights, m1.weights))
             l1, l2 = np.asarray(m1.log_likelihood(X)), np.asarray(m2.log_likelihood(Xt))
             fact("LogLikelihoodShift", rel(l2 + np.sum(np.log(np.abs(a))), l1, 1e-6))
+            # ---- the same with a variance floor that binds: one cluster is flat along one feature and the floor is a
+            # user-set t in the original units, i.e. the per-feature floors a^2 t after the change of units, given as a
+            # 1-D array of one floor per feature or as the full (C, D) array (GmmMStep.AffineEquivariant transforms
+            # the floors with the features)
+            lab = np.argmin(((X[:, None, :] - centres[None]) ** 2).sum(-1), axis=1)
+            cs, js = int(r.randint(0, C)), int(r.randint(0, D))
+            Xf = X.copy()
+            Xf[lab == cs, js] = centres[cs, js]
+            tfl = float(r.choice([0.05, 0.3, 1.0]))
+
+            def floored(Xd, mu, var, floors):
+                m = em.GMMMachine(C, max_fitting_steps=3, convergence_threshold=None, update_means=True,
+                                  update_variances=True, update_weights=True)
+                m.variance_thresholds = floors
+                m.weights, m.means, m.variances = w0.copy(), mu.copy(), var.copy()
+                return m.fit(Xd)
+            f1 = floored(Xf, mu0, v0, tfl)
+            me["floor"] = {"t": tfl, "binds": bool(np.any(np.asarray(f1.variances) <= tfl * (1 + 1e-12)))}
+            for form, fl in (("one floor per feature (1-D)", tfl * a ** 2),
+                             ("full (C, D) array", np.tile(tfl * a ** 2, (C, 1)))):
+                f2 = floored(Xf * a + b, mu0 * a + b, v0 * a ** 2, fl)
+                fact("GmmML.floored.means", rel((np.asarray(f2.means) - b) / a, f1.means), form)
+                fact("GmmML.floored.variances", rel(np.asarray(f2.variances) / a ** 2, f1.variances), form)
+                fact("GmmML.floored.weights", rel(f2.weights, f1.weights), form)
             # a far origin, through the NumPy and the Dask evaluation paths
             import dask
             import dask.array as da
